@@ -202,7 +202,35 @@ def families(dialect):
         ("render", lambda p, r, T: p.call(r, "get_sql")),
         ("copy", lambda p, r, T: p.dup("copy", r)),
     ]
+    # set operations as receivers: built from default-mode operands, from an operand built with immutable=False, from three branches
+    def msub(p, T, t, col):
+        return p.call(p.call(Q, "from_", T[t], immutable=False), "select", _f(p, T[t], col))
+    so_primes = [
+        ("union", lambda p, T: p.call(sub(p, T, "t1", "a"), "union", sub(p, T, "t2", "a"))),
+        # (the in-place operands are over t3, which no action replaces: replace_table on an immutable=False builder rewrites that
+        #  builder in place by design, and a set operation shares its operands)
+        ("union-mutable-operand", lambda p, T: p.call(sub(p, T, "t1", "a"), "union", msub(p, T, "t3", "a"))),
+        ("intersect-mutable-operand", lambda p, T: p.call(sub(p, T, "t1", "a"), "intersect", msub(p, T, "t3", "a"))),
+        ("three-branches", lambda p, T: p.call(p.call(sub(p, T, "t1", "a"), "union_all", sub(p, T, "t2", "a")), "except_of", msub(p, T, "t3", "a"))),
+    ]
+    so_actions = [
+        ("orderby-a", lambda p, r, T: p.call(r, "orderby", _f(p, T["t1"], "a"))),
+        ("orderby-str", lambda p, r, T: p.call(r, "orderby", "a")),
+        ("limit-3", lambda p, r, T: p.call(r, "limit", 3)),
+        ("limit-7", lambda p, r, T: p.call(r, "limit", 7)),
+        ("offset-2", lambda p, r, T: p.call(r, "offset", 2)),
+        ("union-more", lambda p, r, T: p.call(r, "union", sub(p, T, "t3", "b"))),
+        ("minus-more", lambda p, r, T: p.call(r, "minus", sub(p, T, "t2", "b"))),
+        ("replace-t1-t3", lambda p, r, T: p.call(r, "replace_table", T["t1"], T["t3"])),
+        ("replace-t2-t3", lambda p, r, T: p.call(r, "replace_table", T["t2"], T["t3"])),
+        ("as-u", lambda p, r, T: p.call(r, "as_", "u")),
+        ("as-v", lambda p, r, T: p.call(r, "as_", "v")),
+        ("render", lambda p, r, T: p.call(r, "get_sql", p.attr(Q, "SQL_CONTEXT"))),
+        ("str", lambda p, r, T: p.call(r, "__str__")),
+        ("copy", lambda p, r, T: p.dup("copy", r)),
+    ]
     return {
+        "setop": (so_primes, so_actions),
         "select": (sel_primes, sel_actions),
         "insert": (ins_primes, ins_actions),
         "update": (upd_primes, upd_actions),
